@@ -3,8 +3,8 @@
   KECCAK-p[1600, 24] (§3.2–3.4), the sponge construction with pad10*1 (§4, §5.1) and the domain
   separation suffix `01` of the SHA-3 hash functions (§6.1), executable.
 
-  State: 25 lanes of 64 bits, lane `(x, y)` at list index `x + 5*y`; in the byte string view of
-  the state (§B.1) lane `i` holds bytes `8i … 8i+7`, least significant first.
+  State: the 1600-bit string as one `Nat` (bit `i` of the number = `S[i]`), lanes are 64-bit
+  slices; see "the step mappings" below.
 -/
 import VrlModel.Hash.Basic
 
@@ -57,43 +57,49 @@ def RHO : List Nat := [
   41, 45, 15, 21, 8,
   18, 2, 61, 56, 14]
 
-/-! ### the step mappings -/
+/-! ### the step mappings
 
-def lane (a : List Nat) (x y : Nat) : Nat := a.getD (x % 5 + 5 * (y % 5)) 0
+  The state is the 1600-bit string `S` of FIPS 202 §3.1, held as one `Nat` whose bit `i` is `S[i]`
+  (so the byte string view of §B.1 is the little-endian byte representation of the number), and
+  `A[x, y, z] = S[64·(5y + x) + z]` (§3.1.2): lane `(x, y)` is the 64-bit slice at bit offset
+  `64·(5y + x)`. -/
 
-/-- all 25 positions in index order `x + 5y`. -/
+def lane (s : Nat) (x y : Nat) : Nat := (s >>> (64 * (x % 5 + 5 * (y % 5)))) % M64
+
+/-- all 25 positions `(x, y)`. -/
 def positions : List (Nat × Nat) :=
   (List.range 25).map fun i => (i % 5, i / 5)
 
+/-- the state whose lane `(x, y)` is `f x y` (each `< 2^64`). -/
+def build (f : Nat → Nat → Nat) : Nat :=
+  positions.foldl (fun acc p => acc ||| (f p.1 p.2 <<< (64 * (p.1 + 5 * p.2)))) 0
+
 /-- θ: `C[x] = ⊕_y A[x,y]`, `D[x] = C[x−1] ⊕ ROT(C[x+1], 1)`, `A'[x,y] = A[x,y] ⊕ D[x]`. -/
-def theta (a : List Nat) : List Nat :=
+def theta (s : Nat) : Nat :=
   let c := (List.range 5).map fun x =>
-    lane a x 0 ^^^ lane a x 1 ^^^ lane a x 2 ^^^ lane a x 3 ^^^ lane a x 4
+    lane s x 0 ^^^ lane s x 1 ^^^ lane s x 2 ^^^ lane s x 3 ^^^ lane s x 4
   let d := (List.range 5).map fun x => c.getD ((x + 4) % 5) 0 ^^^ rotl64 (c.getD ((x + 1) % 5) 0) 1
-  positions.map fun (x, y) => lane a x y ^^^ d.getD x 0
+  build fun x y => lane s x y ^^^ d.getD x 0
 
 /-- ρ: rotate every lane by its offset. -/
-def rho (a : List Nat) : List Nat :=
-  List.zipWith (fun l r => rotl64 l r) a RHO
+def rho (s : Nat) : Nat :=
+  build fun x y => rotl64 (lane s x y) (RHO.getD (x + 5 * y) 0)
 
 /-- π: `A'[x,y] = A[(x + 3y) mod 5, x]`. -/
-def pi (a : List Nat) : List Nat :=
-  positions.map fun (x, y) => lane a (x + 3 * y) x
+def pi (s : Nat) : Nat :=
+  build fun x y => lane s (x + 3 * y) x
 
 /-- χ: `A'[x,y] = A[x,y] ⊕ (¬A[x+1,y] ∧ A[x+2,y])`. -/
-def chi (a : List Nat) : List Nat :=
-  positions.map fun (x, y) => lane a x y ^^^ (not64 (lane a (x + 1) y) &&& lane a (x + 2) y)
+def chi (s : Nat) : Nat :=
+  build fun x y => lane s x y ^^^ (not64 (lane s (x + 1) y) &&& lane s (x + 2) y)
 
-/-- ι: `A'[0,0] = A[0,0] ⊕ RC[ir]`. -/
-def iota (rc : Nat) (a : List Nat) : List Nat :=
-  match a with
-  | [] => []
-  | l :: ls => (l ^^^ rc) :: ls
+/-- ι: `A'[0,0] = A[0,0] ⊕ RC[ir]` (lane (0,0) is the low 64 bits). -/
+def iota (rc : Nat) (s : Nat) : Nat := s ^^^ rc
 
-def round (a : List Nat) (rc : Nat) : List Nat := iota rc (chi (pi (rho (theta a))))
+def round (s : Nat) (rc : Nat) : Nat := iota rc (chi (pi (rho (theta s))))
 
 /-- KECCAK-f[1600] = KECCAK-p[1600, 24]. -/
-def keccakF (a : List Nat) : List Nat := RC.foldl round a
+def keccakF (s : Nat) : Nat := RC.foldl round s
 
 /-! ### sponge -/
 
@@ -103,17 +109,14 @@ def pad (rate : Nat) (m : Bytes) : Bytes :=
   let q := rate - m.length % rate
   if q = 1 then m ++ [0x86] else m ++ 0x06 :: List.replicate (q - 2) 0 ++ [0x80]
 
-/-- xor one `rate`-byte block into the state and permute. -/
-def absorb (a : List Nat) (blk : Bytes) : List Nat :=
-  let ls := (chunks 8 blk).map leNat
-  keccakF (List.zipWith (· ^^^ ·) a (ls ++ List.replicate (25 - ls.length) 0))
+/-- xor one `rate`-byte block (`P_i ‖ 0^c`) into the state and permute. -/
+def absorb (s : Nat) (blk : Bytes) : Nat := keccakF (s ^^^ leNat blk)
 
 /-- SHA3-d for a digest of `out` bytes: capacity `2·out` bytes, rate `200 − 2·out`; the digest
     is the first `out` bytes of the state (always `out ≤ rate` here). -/
 def sha3 (out : Nat) (m : Bytes) : Bytes :=
   let rate := 200 - 2 * out
-  let a := (chunks rate (pad rate m)).foldl absorb (List.replicate 25 0)
-  (a.flatMap (toLE 8)).take out
+  toLE out ((chunks rate (pad rate m)).foldl absorb 0)
 
 def sha3_224 (m : Bytes) : Bytes := sha3 28 m
 def sha3_256 (m : Bytes) : Bytes := sha3 32 m
